@@ -115,6 +115,7 @@ type vInfo struct {
 	isStr   bool
 	isBool  bool
 	isMap   bool // exactly map[string]any
+	elems   []any // for slices: the elements, boxed, in order (nil when not checked element-wise)
 }
 
 const vCatalogueSize = 41
@@ -158,19 +159,26 @@ func vAnyOf(label string) (any, vInfo) {
 	case 16:
 		return []any{}, vInfo{isSlice: true}
 	case 17:
-		return []any{vNondet[int](label + ".v")}, vInfo{isSlice: true, n: 1}
+		x := vNondet[int](label + ".v")
+		return []any{x}, vInfo{isSlice: true, n: 1, elems: []any{x}}
 	case 18:
-		return []any{vNondet[int](label + ".v"), "x"}, vInfo{isSlice: true, n: 2}
+		x := vNondet[int](label + ".v")
+		return []any{x, "x"}, vInfo{isSlice: true, n: 2, elems: []any{x, "x"}}
 	case 19:
-		return []string{vNondet[string](label + ".v"), "y"}, vInfo{isSlice: true, n: 2}
+		x := vNondet[string](label + ".v")
+		return []string{x, "y"}, vInfo{isSlice: true, n: 2, elems: []any{x, "y"}}
 	case 20:
-		return []int{vNondet[int](label + ".v")}, vInfo{isSlice: true, n: 1}
+		x := vNondet[int](label + ".v")
+		return []int{x}, vInfo{isSlice: true, n: 1, elems: []any{x}}
 	case 21:
-		return []float64{vNondet[float64](label + ".v"), 1.5}, vInfo{isSlice: true, n: 2}
+		x := vNondet[float64](label + ".v")
+		return []float64{x, 1.5}, vInfo{isSlice: true, n: 2, elems: []any{x, 1.5}}
 	case 22:
-		return []map[string]any{{"k": 1}}, vInfo{isSlice: true, n: 1}
+		m := map[string]any{"k": 1}
+		return []map[string]any{m}, vInfo{isSlice: true, n: 1, elems: []any{m}}
 	case 23:
-		return []int8{vNondet[int8](label + ".v"), 2, 3}, vInfo{isSlice: true, n: 3} // reflection path
+		x := vNondet[int8](label + ".v")
+		return []int8{x, 2, 3}, vInfo{isSlice: true, n: 3, elems: []any{x, int8(2), int8(3)}} // reflection path
 	case 24:
 		return vNamedSlice{vNamedSlice{}}, vInfo{isSlice: true, n: 1} // named slice holding a slice
 	case 25:
